@@ -96,7 +96,14 @@ impl Prop for C15 {
         let mut cfg = gen_tagged_cfg(t, &co);
         cfg.unset("features");
         cfg.unset("max-line-length");
-        cfg.unset("max-syntax-highlighting-length");
+        // (beyond this length a line is highlighted only at its start; its text must be complete all the same)
+        match t.fork(5).weighted(&[5, 1, 1, 1]) {
+            0 => cfg.unset("max-syntax-highlighting-length"),
+            1 => cfg.set("max-syntax-highlighting-length", "10"),
+            2 => cfg.set("max-syntax-highlighting-length", "25"),
+            _ => cfg.set("max-syntax-highlighting-length", "50"),
+        }
+        ctx.class_if(cfg.get("max-syntax-highlighting-length").is_some(), "short-max-syntax-highlighting-length");
         cfg.unset("default-language");
         cfg.unset("relative-paths");
         // the hunk styles may come from the git config instead of the command line (the option set
